@@ -10,7 +10,7 @@ package main
 //   var     = idx*16 + class                classes: 1 nfn 2 etq 3 blk 4 seg 5 arch 6 afill 7 pst 8 ptrig 9 bcon
 //             10 trs 11 wsa 12 wsc 13 vip 14 bst 15 lastm 0 rloc
 //   object  = idx*16 + class                classes: 1 nb 2 bufc 3 qreq 4 qres 5 cm 6 cmpl 7 fl 8 wsm 9 cfg 10 wga
-//             11 wgp 12 rund 13 abort
+//             11 wgp 12 rund 13 abort 14 rundone
 //
 // Sources whose blocks are built while the previous one is still being processed (tri, sim: the producer does not
 // wait for the core loop) get one variable per block object and one logical channel per message (single sender,
@@ -31,7 +31,7 @@ func c17Enc(cls, idx int) int { return idx*16 + cls }
 var c17Var = map[string]int{"nfn": 1, "etq": 2, "blk": 3, "seg": 4, "arch": 5, "afill": 6, "pst": 7, "ptrig": 8, "bcon": 9,
 	"trs": 10, "wsa": 11, "wsc": 12, "vip": 13, "bst": 14, "lastm": 15, "rloc": 0}
 var c17Obj = map[string]int{"nb": 1, "bufc": 2, "qreq": 3, "qres": 4, "cm": 5, "cmpl": 6, "fl": 7, "wsm": 8, "cfg": 9, "wga": 10,
-	"wgp": 11, "rund": 12, "abort": 13}
+	"wgp": 11, "rund": 12, "abort": 13, "rundone": 14}
 var c17Ev = map[string]int{"rd": 0, "wr": 1, "send": 2, "recv": 3, "close": 4, "recvc": 5, "lock": 6, "unlock": 7, "wgadd": 8,
 	"wgdone": 9, "wgwait": 10, "spawn": 11, "start": 12}
 
